@@ -28,13 +28,36 @@ class LicenceLimit(Exception):
 
 def is_licence_error(e):
     s = str(e)
-    return "size-limited license" in s or "Model too large" in s or "CPLEX Error  1016" in s or "Promotional version" in s or "1016" in s and "CPLEX" in s
+    return "harness solve budget" in s or "size-limited license" in s or "Model too large" in s or "CPLEX Error  1016" in s or "Promotional version" in s or "1016" in s and "CPLEX" in s
+
+
+SOLVE_BUDGET_S = float(os.environ.get("VERIF_SOLVE_BUDGET", "20"))
+
+
+class SolverBudget(Exception):
+    """One optimize() call of a scheduler exceeded the harness budget: the case is inconclusive (discarded, counted)."""
 
 
 class RecordingModel(_orig_model):
     def __init__(self, *a, **k):
         super().__init__(*a, **k)
         CAPTURED["models"].append(self)
+
+    def optimize(self, *a, **k):
+        # SIGALRM cannot interrupt a solve that runs inside the C library, and an unconstrained Gurobi takes every core:
+        # one thread, and a time budget that turns an endless solve into a counted discard
+        mine = False
+        try:
+            self.Params.Threads = 1
+            if self.Params.TimeLimit > SOLVE_BUDGET_S:
+                self.Params.TimeLimit = SOLVE_BUDGET_S
+                mine = True
+        except Exception:
+            pass
+        r = super().optimize(*a, **k)
+        if mine and self.Status == gp.GRB.TIME_LIMIT:
+            raise SolverBudget(f"harness solve budget of {SOLVE_BUDGET_S:g} s exhausted (size-limited license or not: inconclusive)")
+        return r
 
 
 def install():
@@ -63,6 +86,15 @@ def install():
             return _add_variables
 
         cls._add_variables = make(orig)
+    # TetriSched-CPLEX asks for cpu_count() threads per solve; 16 workers x 16 threads only slows everything down
+    try:
+        import types
+
+        import schedulers.tetrisched_cplex_scheduler as tc
+
+        tc.multiprocessing = types.SimpleNamespace(cpu_count=lambda: 1)
+    except Exception:
+        pass
     # the Z3 scheduler prints the simulation time on every invocation
     import schedulers.z3_scheduler as z3s
 
